@@ -55,6 +55,12 @@ def check_curve(ctx, params, grid, mean, kappa, et, inp):
     with sim.record_quad() as calls:
         sim.dirty_heap(ctx.rng, len(g))
         t = [float(v) for v in srm.compute_recession_curve(sy, Td, g, mean, kappa, et)]
+    if not common.same_as_snapshot(g, np.array(grid, dtype=float)) or len(t) != len(grid):
+        ctx.violation("impl-violation", "c18Holds", {"input": inp, "impl": [float(v) for v in g], "oracle": {
+            "name": "c18Holds", "result": False,
+            "witness": {"why": "the caller's grid of levels was modified by compute_recession_curve, or the curve has another length",
+                        "levels": len(grid), "values": len(t)}}})
+        return t
     cells = [c for c in calls if any(c[0] == a and c[1] == b for a, b in zip(grid, grid[1:]))]
     m = ctx.driver.call("curve.f", {"grid": [f2h(x) for x in grid], "cells": [f2h(c[2]) for c in cells], "mean": f2h(mean)})
     cur = [h2f(v) for v in m["curve"]]
